@@ -51,7 +51,9 @@ def run(tier, seed, replay=None):
     proof_stage(rep, "C11")
     if not build_stage(rep):
         return rep.finish()
-    cases = load_replay_case(replay) if replay else histories(tier, rng) + ileave2.cases(tier, rng, kinds=("share",))
+    cases = load_replay_case(replay) if replay else histories(tier, rng) + ileave2.cases(tier, rng, kinds=("share",)) + [
+        # a subscriber that joins the shared observable from inside a callback of it, during an emission
+        ("sr1", "(case sr1 share_reenter)", {"mode": "share", "src": "hot", "class": "join-inside-a-callback"})]
     correspond(rep, "C11", cases, "C11_source_subscribed_at_most_once / C11_not_before_connect / C11_multicast / C11_released_after_last_leaver")
     c = rep.coverage
     hist = {}
